@@ -3,6 +3,7 @@ import P2PVerif.Model.DER
 import P2PVerif.Model.Distance
 import P2PVerif.Lemmas.Base64
 import P2PVerif.Lemmas.DER
+import P2PVerif.Lemmas.SrcOid
 /-! # C17 — keys and identities have one canonical, lossless encoding
 Property theorems only. `DER.marshalKey`/`parseKey` model f/x509 MarshalPublicKey/ParsePublicKey (the DER shape
 encoding/asn1 emits), `B64.marshalText`/`unmarshalText` model PeerID.MarshalText/UnmarshalText over the alphabet
@@ -58,5 +59,30 @@ theorem peerid_rejects_invalid (t : List Char) (id : Bytes) (h : unmarshalText a
 -- non-vacuity
 example : validOID [1, 3, 101, 112] = true := by decide
 example : unmarshalText alphabet (marshalText alphabet (List.replicate 32 255)) = some (List.replicate 32 255) := by decide
+
+/-- ⊢ regenerated algorithm identifiers: `oids.New`, `Len`, `At` and `ASN1`, REGENERATED from f/x509/oids/oids.go
+    (an identifier is stored as one 8-byte big-endian word per arc), are lossless: an identifier built from arcs that
+    are non-negative Go ints has as many arcs as it was given, `At` reads back arc `k` (as the 64-bit word), and `ASN1`
+    — what `MarshalPublicKey` and the fingerprints are computed from — returns exactly the arcs. -/
+theorem src_oid_lossless (xs : List Int) (hlen : xs.length < 2 ^ 64) (h : ∀ x ∈ xs, 0 ≤ x ∧ x < 9223372036854775808) :
+    (Src.oids.New xs >>= Src.oids.OID.ASN1) = .ok xs ∧
+    (Src.oids.New xs >>= Src.oids.OID.Len) = .ok (xs.length : Int) ∧
+    ∀ (k : Nat) (hk : k < xs.length), (Src.oids.New xs >>= fun o => Src.oids.OID.At o (k : Int)) = .ok (Go.toU64 xs[k]) := by
+  refine ⟨Src.ASN1_New_id xs hlen h, ?_, ?_⟩
+  · rw [Src.New_eq]; exact Src.Len_New xs
+  · intro k hk
+    rw [Src.New_eq]; exact Src.At_New xs k hk
+
+/-- ⊢ two identifiers with different arcs are different values (so `==` on identifiers decides equality of arcs) -/
+theorem src_oid_injective (xs ys : List Int) (hx : xs.length < 2 ^ 64) (hy : ys.length < 2 ^ 64)
+    (h : ∀ x ∈ xs ++ ys, 0 ≤ x ∧ x < 9223372036854775808) (e : Src.oids.New xs = Src.oids.New ys) : xs = ys := by
+  have h1 := Src.ASN1_New_id xs hx (fun x hm => h x (List.mem_append_left _ hm))
+  have h2 := Src.ASN1_New_id ys hy (fun x hm => h x (List.mem_append_right _ hm))
+  rw [e, h2] at h1
+  injection h1 with h1
+  exact h1.symm
+
+example : (Src.oids.New [1, 2, 840, 113549] >>= Src.oids.OID.ASN1) = .ok [1, 2, 840, 113549] :=
+  Src.ASN1_New_id _ (by decide) (by decide)
 
 end P2PVerif.C17
